@@ -637,7 +637,20 @@ def _isinstance_guards(fn):
     return out
 
 
+_MEMO = {}
+
+
+def _memo(key, make):
+    if key not in _MEMO:
+        _MEMO[key] = make()
+    return _MEMO[key]
+
+
 def _functions_of(tree):
+    return _memo(("functions_of", id(tree)), lambda: _functions_of0(tree))
+
+
+def _functions_of0(tree):
     """(qualified name, FunctionDef, enclosing class name or None) for every function in a module (nested included once)"""
     out = []
 
@@ -653,6 +666,10 @@ def _functions_of(tree):
 
 
 def _class_bases(tree):
+    return _memo(("class_bases", id(tree)), lambda: _class_bases0(tree))
+
+
+def _class_bases0(tree):
     return {n.name: [(b.id if isinstance(b, ast.Name) else (b.attr if isinstance(b, ast.Attribute) else None)) for b in n.bases]
             + [a.id for b in n.bases if isinstance(b, ast.Call) for a in b.args if isinstance(a, ast.Name)]
             for n in ast.walk(tree) if isinstance(n, ast.ClassDef)}
@@ -839,6 +856,10 @@ def control_action_tables(wntr, inst, R):
 
 
 def epanet_functions():
+    return _memo("epanet_functions", epanet_functions0)
+
+
+def epanet_functions0():
     """(where, FunctionDef) of everything EpanetSimulator.run_sim runs on the SAME wn: the EpanetSimulator /
     WaterNetworkSimulator methods, write_inpfile, the call closure of InpFile.write inside wntr/epanet/io.py (by name), and the
     MSX writer / result reader that receive wn when wn._msx is set"""
@@ -1086,6 +1107,10 @@ RUNTIME_MODULES = ("wntr/sim/core.py", "wntr/sim/hydraulics.py", "wntr/sim/epane
 
 
 def runtime_functions():
+    return _memo("runtime_functions", runtime_functions0)
+
+
+def runtime_functions0():
     """(where, FunctionDef, self_kind) of the run-time closure of BOTH simulators, over-approximated: every function of the
     simulator modules and wntr/sim/models, every method of wntr/network/controls.py (self_kind 'control' / 'condition' by base
     class), the EPANET writer closure, and the WaterNetworkModel methods / properties whose NAME is loaded in those functions"""
@@ -1258,6 +1283,8 @@ def protocol_write_before_read(field):
                     return False, "%s is accessed outside the control classes' own methods (%s:%d)" % (field, q, m.lineno)
                 (loads if isinstance(m.ctx, ast.Load) else stores).setdefault(n.name, []).append((q, n))
     for rel in RUNTIME_MODULES + ("wntr/epanet/io.py", "wntr/network/io.py", "wntr/network/model.py"):
+        if field not in _read_src(rel):
+            continue
         for m in ast.walk(_parse(rel)):
             if isinstance(m, ast.Attribute) and m.attr == field:
                 return False, "%s is accessed in %s:%d" % (field, rel, m.lineno)
@@ -1804,6 +1831,386 @@ def inp_writer_reads(wntr, inst, R):
     return out
 
 
+# =================================================================================================== backtrack facts (wave 5)
+
+
+def _cond_classes():
+    """controls.py: (tree, bases, {concrete condition class: ClassDef}) -- every subclass of ControlCondition"""
+    t = _parse("wntr/network/controls.py")
+    bases = _class_bases(t)
+    cls = {n.name: n for n in ast.walk(t) if isinstance(n, ast.ClassDef) and n.name != "ControlCondition" and _derives(bases, n.name, "ControlCondition")}
+    if not cls:
+        raise BrokenTie("controls.py defines no subclass of ControlCondition")
+    return t, bases, cls
+
+
+def _method(cls_map, bases, cname, mname, with_base=True):
+    """the FunctionDef `mname` that class `cname` uses (own or inherited inside controls.py), or None"""
+    seen, todo = set(), [cname]
+    t = _parse("wntr/network/controls.py")
+    allc = _memo("controls_classes", lambda: {n.name: n for n in ast.walk(t) if isinstance(n, ast.ClassDef)})
+    while todo:
+        c = todo.pop(0)
+        if c in seen or c not in allc:
+            continue
+        seen.add(c)
+        for st in allc[c].body:
+            if isinstance(st, ast.FunctionDef) and st.name == mname:
+                return c, st
+        if not with_base:
+            return None, None
+        todo += [b for b in bases.get(c, []) if b]
+    return None, None
+
+
+def backtrack_facts(wntr, inst, R):
+    field = "_backtrack"
+    t, bases, cls = _cond_classes()
+    S = WriteScanner(wntr, inst, R)
+    kinds, composite = {}, []
+    for c in sorted(cls):
+        # composite: the class (or a base below ControlCondition) overrides the `backtrack` property and reads its children's
+        owner, prop = _method(cls, bases, c, "backtrack")
+        if prop is not None and owner != "ControlCondition":
+            kids = [m for m in ast.walk(prop) if isinstance(m, ast.Attribute) and m.attr in ("backtrack", field)
+                    and not (isinstance(m.value, ast.Name) and m.value.id == "self")]
+            if not kids:
+                raise BrokenTie("%s overrides `backtrack` without reading a child's backtrack: not understood" % owner)
+            kinds[c] = "composite"
+            composite.append(c)
+            continue
+        owner, ev = _method(cls, bases, c, "evaluate")
+        if ev is None or owner == "ControlCondition":
+            raise BrokenTie("condition class %s has no evaluate() in controls.py" % c)
+
+        def stores_in(fn, depth=0):
+            st = any(isinstance(m, ast.Attribute) and m.attr == field and isinstance(m.ctx, ast.Store) for m in ast.walk(fn))
+            if any(isinstance(m, ast.Call) and isinstance(m.func, ast.Name) and m.func.id == "setattr" for m in ast.walk(fn)):
+                raise BrokenTie("%s.evaluate uses setattr: cannot classify its treatment of %s" % (c, field))
+            if depth < 3:
+                for m in ast.walk(fn):
+                    if isinstance(m, ast.Call) and isinstance(m.func, ast.Attribute) and isinstance(m.func.value, ast.Name) and m.func.value.id == "self":
+                        o2, f2 = _method(cls, bases, c, m.func.attr)
+                        if f2 is not None and f2 is not fn and stores_in(f2, depth + 1):
+                            st = "called"
+            return st
+
+        st = stores_in(ev)
+        if not st:
+            kinds[c] = "neverAssigns"
+        elif st is True and _definitely_assigns(ev.body, field):
+            kinds[c] = "assignsAllPaths"
+        else:
+            kinds[c] = "assignsSomePaths"
+    # ---- which control types are registered with the presolve checker
+    ct = _parse("wntr/sim/core.py")
+    pre_types = set()
+    for n in ast.walk(ct):
+        if isinstance(n, ast.If) and any(isinstance(m, ast.Call) and isinstance(m.func, ast.Attribute) and m.func.attr == "register_control"
+                                         and "_presolve_controls" in ast.unparse(m.func.value) for s_ in n.body for m in ast.walk(s_)):
+            for m in ast.walk(n.test):
+                if isinstance(m, ast.Attribute) and isinstance(m.value, ast.Name) and m.value.id == "_ControlType":
+                    pre_types.add(m.attr)
+    if not pre_types:
+        raise BrokenTie("sim/core.py: cannot find which _ControlType values are registered with self._presolve_controls")
+    # ---- Control.__init__: isinstance(condition, ...) -> type
+    owner, init = _method(cls, bases, "Control", "__init__", with_base=False)
+    if init is None:
+        raise BrokenTie("controls.py has no Control.__init__")
+    pre_named, default_pre = set(), False
+    chain = [x for x in init.body if isinstance(x, ast.If) and any(isinstance(m, ast.Attribute) and m.attr == "_control_type" and isinstance(m.ctx, ast.Store)
+                                                                   for m in ast.walk(x))]
+    if len(chain) != 1:
+        raise BrokenTie("Control.__init__: expected one if/elif chain assigning self._control_type")
+    node = chain[0]
+
+    def assigned_type(body):
+        for x in body:
+            if isinstance(x, ast.Assign) and ast.unparse(x.targets[0]) == "self._control_type" and isinstance(x.value, ast.Attribute):
+                return x.value.attr
+        raise BrokenTie("Control.__init__: branch does not assign a literal _ControlType")
+
+    while True:
+        tst = node.test
+        if not (isinstance(tst, ast.Call) and isinstance(tst.func, ast.Name) and tst.func.id == "isinstance" and ast.unparse(tst.args[0]) == "condition"):
+            raise BrokenTie("Control.__init__: test is not isinstance(condition, ...): %s" % ast.unparse(tst))
+        names = [e.id for e in (tst.args[1].elts if isinstance(tst.args[1], ast.Tuple) else [tst.args[1]])]
+        if assigned_type(node.body) in pre_types:
+            pre_named |= set(names)
+        if len(node.orelse) == 1 and isinstance(node.orelse[0], ast.If):
+            node = node.orelse[0]
+            continue
+        if node.orelse and assigned_type(node.orelse) in pre_types:
+            default_pre = True
+        break
+    presolve = set(c for c in cls if default_pre or any(_derives(bases, c, b) for b in pre_named))
+    # ---- explicit `X._control_type = _ControlType.T` in sim/core.py: the condition X was constructed with
+    vc_new = _value_condition_dispatch(cls, bases)
+    feas_top, feas_leaf = set(), set()
+
+    def cond_classes(expr, fn, lookup, line):
+        """(top classes, leaf classes) of a condition expression / variable"""
+        if isinstance(expr, ast.Name):
+            src = [m for m in ast.walk(fn) if isinstance(m, ast.Assign) and len(m.targets) == 1 and isinstance(m.targets[0], ast.Name)
+                   and m.targets[0].id == expr.id and m.lineno <= line]
+            if not src:
+                raise BrokenTie("sim/core.py:%d condition variable %s has no assignment in %s" % (line, expr.id, fn.name))
+            last = max(src, key=lambda m: m.lineno)
+            if isinstance(last.value, ast.Attribute) and last.value.attr == "condition":
+                return None, None  # condition of a user control passed on: covered by the Control.__init__ rule
+            return cond_classes(last.value, fn, lookup, last.lineno)
+        if isinstance(expr, ast.Attribute) and expr.attr == "condition":
+            return None, None
+        if not (isinstance(expr, ast.Call) and isinstance(expr.func, ast.Name)):
+            raise BrokenTie("sim/core.py:%d cannot tell the class of condition %s" % (line, ast.unparse(expr)[:60]))
+        cn = expr.func.id
+        if cn not in cls:
+            raise BrokenTie("sim/core.py:%d %s is not a condition class of controls.py" % (line, cn))
+        if kinds[cn] == "composite":
+            leaves = set()
+            for a in list(expr.args) + [k.value for k in expr.keywords]:
+                tp, lf = cond_classes(a, fn, lookup, line)
+                if tp is None:
+                    raise BrokenTie("sim/core.py:%d composite condition over a user condition" % line)
+                leaves |= lf
+            return {cn}, leaves
+        if cn == vc_new["base"]:
+            a0 = expr.args[0] if expr.args else next((k.value for k in expr.keywords if k.arg == "source_obj"), None)
+            a1 = expr.args[1] if len(expr.args) > 1 else next((k.value for k in expr.keywords if k.arg == "source_attr"), None)
+            what = lookup(a0.id, line) if isinstance(a0, ast.Name) else None
+            attr_ok = not (isinstance(a1, ast.Constant) and a1.value not in vc_new["attrs"])
+            if isinstance(what, list) and vc_new["cls"] not in what or not attr_ok:
+                res = {cn}
+            elif isinstance(what, list) and set(what) == {vc_new["cls"]} and isinstance(a1, ast.Constant):
+                res = {vc_new["target"]}
+            else:
+                res = {cn, vc_new["target"]}
+            return res, res
+        return {cn}, {cn}
+
+    for q, fn, c in _functions_of(ct):
+        lookup = None
+        for n in ast.walk(fn):
+            if isinstance(n, ast.Assign) and len(n.targets) == 1 and isinstance(n.targets[0], ast.Attribute) and n.targets[0].attr == "_control_type" \
+                    and isinstance(n.targets[0].value, ast.Name) and isinstance(n.value, ast.Attribute):
+                T = n.value.attr
+                if T not in pre_types and T != "feasibility":
+                    continue
+                lookup = lookup or S._env(fn, None)
+                var = n.targets[0].value.id
+                cons = [m for m in ast.walk(fn) if isinstance(m, ast.Assign) and len(m.targets) == 1 and isinstance(m.targets[0], ast.Name)
+                        and m.targets[0].id == var and m.lineno <= n.lineno and isinstance(m.value, ast.Call)]
+                if not cons:
+                    raise BrokenTie("sim/core.py:%d %s._control_type assigned but %s is not constructed in %s" % (n.lineno, var, var, q))
+                call = max(cons, key=lambda m: m.lineno).value
+                cexpr = call.args[0] if call.args else next((k.value for k in call.keywords if k.arg == "condition"), None)
+                if cexpr is None:
+                    raise BrokenTie("sim/core.py:%d control constructed without a condition argument" % n.lineno)
+                top, leaf = cond_classes(cexpr, fn, lookup, n.lineno)
+                if top is None:
+                    continue
+                if T == "feasibility":
+                    feas_top |= top
+                    feas_leaf |= leaf
+                else:
+                    presolve |= top
+    # ---- consumers of the second component of a .check() result in sim/core.py
+    consumers = []
+    producers = {"check"}
+    fns = _functions_of(ct)
+    for q, fn, c in fns:   # one-level wrappers (see protocol_write_before_read)
+        names = set(m.targets[0].id for m in ast.walk(fn) if isinstance(m, ast.Assign) and len(m.targets) == 1 and isinstance(m.targets[0], ast.Name)
+                    and isinstance(m.value, ast.Call) and isinstance(m.value.func, ast.Attribute) and m.value.func.attr == "check")
+        rets = [m for m in ast.walk(fn) if isinstance(m, ast.Return)]
+        if names and rets and all(isinstance(r.value, ast.Name) and r.value.id in names for r in rets):
+            producers.add(fn.name)
+    checkers = {}
+    for q, fn, c in fns:
+        lists = {}
+        for m in ast.walk(fn):
+            if isinstance(m, ast.Assign) and len(m.targets) == 1 and isinstance(m.targets[0], ast.Name) and isinstance(m.value, ast.Call) \
+                    and isinstance(m.value.func, ast.Attribute) and m.value.func.attr in producers and not m.value.args:
+                lists[m.targets[0].id] = ast.unparse(m.value.func)
+        if not lists or fn.name in producers:
+            continue
+        in_logger = set()
+        for m in ast.walk(fn):
+            if isinstance(m, ast.Call) and isinstance(m.func, ast.Attribute) and isinstance(m.func.value, ast.Name) and m.func.value.id == "logger":
+                for x in ast.walk(m):
+                    in_logger.add(id(x))
+        for L in sorted(lists):
+            second = set()   # names holding the second component
+            uses = []
+            for m in ast.walk(fn):
+                tg = None
+                if isinstance(m, (ast.For, ast.comprehension)) and isinstance(m.iter, ast.Name) and m.iter.id == L:
+                    tg = m.target
+                elif isinstance(m, ast.Assign) and isinstance(m.value, ast.Subscript) and isinstance(m.value.value, ast.Name) and m.value.value.id == L:
+                    tg = m.targets[0]
+                if tg is not None:
+                    if isinstance(tg, ast.Tuple) and len(tg.elts) == 2 and isinstance(tg.elts[1], ast.Name):
+                        second.add(tg.elts[1].id)
+                    elif isinstance(tg, ast.Name):
+                        second.add("<elem>" + tg.id)   # whole element: uses of name[1] below
+                    else:
+                        raise BrokenTie("sim/core.py:%s unpacks a .check() result in a way the translator cannot follow" % q)
+            for m in ast.walk(fn):
+                if id(m) in in_logger:
+                    continue
+                if isinstance(m, ast.Name) and isinstance(m.ctx, ast.Load) and m.id in second:
+                    uses.append(m)
+                if isinstance(m, ast.Subscript) and isinstance(m.slice, ast.Constant) and m.slice.value == 1:
+                    v = m.value
+                    if isinstance(v, ast.Subscript) and isinstance(v.value, ast.Name) and v.value.id == L:
+                        uses.append(m)
+                    if isinstance(v, ast.Name) and ("<elem>" + v.id) in second:
+                        uses.append(m)
+                if isinstance(m, ast.Lambda):   # L.sort(key=lambda i: i[1])
+                    pass
+            for m in ast.walk(fn):
+                if isinstance(m, ast.Call) and isinstance(m.func, ast.Attribute) and m.func.attr == "sort" and isinstance(m.func.value, ast.Name) \
+                        and m.func.value.id == L:
+                    for k in m.keywords:
+                        if k.arg == "key" and isinstance(k.value, ast.Lambda):
+                            a = k.value.args.args[0].arg
+                            for x in ast.walk(k.value.body):
+                                if isinstance(x, ast.Subscript) and isinstance(x.value, ast.Name) and x.value.id == a and isinstance(x.slice, ast.Constant) \
+                                        and x.slice.value == 1:
+                                    uses.append(x)
+            if uses:
+                parents = {}
+                for n2 in ast.walk(fn):
+                    for ch2 in ast.iter_child_nodes(n2):
+                        parents[id(ch2)] = n2
+                asserts = []
+                for u in uses:
+                    p2 = parents.get(id(u))
+                    while p2 is not None and not isinstance(p2, ast.stmt):
+                        p2 = parents.get(id(p2))
+                    asserts.append(isinstance(p2, ast.Assert) and ast.unparse(p2))
+                how = asserts[0] if all(asserts) and len(set(asserts)) == 1 else L
+                consumers.append(("%s.%s" % (c, fn.name) if c else fn.name, how))
+                checkers[("%s.%s" % (c, fn.name) if c else fn.name, how)] = lists[L]
+    # ---- readers of <cond>.backtrack / ._backtrack outside the property definitions
+    readers = []
+    for where, fn, kind in runtime_functions():
+        if fn.name == "backtrack":
+            continue
+        for blk in [x for x in ast.walk(fn) if hasattr(x, "body") and isinstance(getattr(x, "body"), list)]:
+            for body in (blk.body, getattr(blk, "orelse", []) or [], getattr(blk, "finalbody", []) or []):
+                for i, st in enumerate(body):
+                    if isinstance(st, (ast.FunctionDef, ast.ClassDef, ast.If, ast.For, ast.While, ast.With, ast.Try)):
+                        heads = [st.test] if isinstance(st, (ast.If, ast.While)) else ([st.iter] if isinstance(st, ast.For) else [])
+                    else:
+                        heads = [st]
+                    for h in heads:
+                        for m in ast.walk(h):
+                            if isinstance(m, ast.Attribute) and m.attr in ("backtrack", field) and isinstance(m.ctx, ast.Load):
+                                obj = ast.unparse(m.value)
+                                prev = body[i - 1] if i else None
+                                ok = False
+                                if isinstance(prev, (ast.Assign, ast.Expr)) and isinstance(prev.value, ast.Call) and isinstance(prev.value.func, ast.Attribute) \
+                                        and prev.value.func.attr == "evaluate" and ast.unparse(prev.value.func.value) == obj:
+                                    ok = True
+                                readers.append((where.split(":", 1)[1], ok))
+    return {"kinds": sorted(kinds.items()), "composite": sorted(composite), "presolve": sorted(presolve), "feasTop": sorted(feas_top),
+            "feasLeaf": sorted(feas_leaf), "consumers": sorted(set(consumers)), "consumerCheckers": {"%s|%s" % k: v for k, v in checkers.items()},
+            "readers": sorted(set(readers)), "preTypes": sorted(pre_types), "preNamed": sorted(pre_named)}
+
+
+def _value_condition_dispatch(cls, bases):
+    """ValueCondition.__new__: `if isinstance(source_obj, Tank) and source_attr in {...}: return object.__new__(TankLevelCondition)`"""
+    for cname, node in cls.items():
+        for st in node.body:
+            if isinstance(st, ast.FunctionDef) and st.name == "__new__":
+                ifs = [x for x in st.body if isinstance(x, ast.If)]
+                if len(ifs) != 1:
+                    raise BrokenTie("%s.__new__: expected one if/else" % cname)
+                tst = ifs[0].test
+                try:
+                    a, b = tst.values
+                    kls = a.args[1].id
+                    attrs = set(e.value for e in b.comparators[0].elts)
+                    target = ifs[0].body[0].value.args[0].id
+                    other = ifs[0].orelse[0].value.args[0].id
+                except Exception:
+                    raise BrokenTie("%s.__new__: dispatch test not understood: %s" % (cname, ast.unparse(tst)))
+                if other != cname or target not in cls:
+                    raise BrokenTie("%s.__new__ returns unexpected classes" % cname)
+                return {"base": cname, "cls": kls, "attrs": attrs, "target": target}
+    return {"base": None, "cls": None, "attrs": set(), "target": None}
+
+
+def inpfile_units_fact():
+    """(bool, evidence): every write_inpfile(...) call of the EpanetSimulator closure passes `units=` AND that value cannot be None"""
+    calls = []
+    for where, fn in epanet_functions():
+        for m in ast.walk(fn):
+            if isinstance(m, ast.Call) and ((isinstance(m.func, ast.Name) and m.func.id == "write_inpfile") or
+                                            (isinstance(m.func, ast.Attribute) and m.func.attr == "write_inpfile")):
+                kw = {k.arg: k.value for k in m.keywords}
+                calls.append((where, m.lineno, ast.unparse(kw["units"]) if "units" in kw else None))
+    if not calls:
+        raise BrokenTie("EpanetSimulator closure contains no write_inpfile call")
+    kw_ok = all(u is not None for _, _, u in calls)
+    wntr = vlib.import_wntr()
+    w = wntr.network.WaterNetworkModel()
+    try:
+        w.options.hydraulic.inpfile_units = None
+        none_ok = w.options.hydraulic.inpfile_units is None
+    except Exception:
+        none_ok = False
+    loads = []
+    for where, fn in epanet_functions():
+        for m in ast.walk(fn):
+            if isinstance(m, ast.Attribute) and m.attr == "_inpfile":
+                loads.append("%s:%d %s" % (where, m.lineno, "store" if isinstance(m.ctx, ast.Store) else "load"))
+    ev = ("write_inpfile calls in the EpanetSimulator closure: %s; keyword units= always given: %s; but options.hydraulic.inpfile_units accepts None "
+          "(reflection): %s -- then write_inpfile passes None on and InpFile.write keeps the cached object's flow_units (`elif self.flow_units is not "
+          "None`); mass_units is set once (`if self.mass_units is None`) and kept. Uses of wn._inpfile: %s"
+          % (["%s:%d units=%s" % c for c in calls], kw_ok, none_ok, loads))
+    return (kw_ok and not none_ok), ev
+
+
+def rule_name_readers(wntr, inst, R):
+    """(function, purpose) for every load of `.name` / `._name` on an object that is (or may only be) a rule / control, in the closures of both simulators"""
+    S = WriteScanner(wntr, inst, R)
+    out = set()
+    for where, fn, kind in runtime_functions():
+        lookup = S._env(fn, None)
+        in_logger, in_str = set(), fn.name in ("__str__", "__repr__")
+        for m in ast.walk(fn):
+            if isinstance(m, ast.Call) and isinstance(m.func, ast.Attribute) and isinstance(m.func.value, ast.Name) and m.func.value.id == "logger":
+                for x in ast.walk(m):
+                    in_logger.add(id(x))
+        for m in ast.walk(fn):
+            if not (isinstance(m, ast.Attribute) and isinstance(m.ctx, ast.Load) and m.attr in ("name", "_name")):
+                continue
+            X = m.value
+            is_ctl = False
+            if isinstance(X, ast.Name):
+                if X.id == "self":
+                    is_ctl = kind == "control"
+                else:
+                    what = lookup(X.id, m.lineno)
+                    is_ctl = (isinstance(what, list) and set(what) & set(CONTROL_CLASSES)) or (what is None and X.id in ("control", "rule", "all_control", "ctrl"))
+            if not is_ctl:
+                continue
+            f = where.split(":", 1)[1]
+            if fn.name == "name" or fn.name in CONTROL_DEF_METHODS:
+                continue  # the property itself / definition-time methods
+            if id(m) in in_logger or in_str:
+                purpose = "logging/str"
+            elif "_write_rules" in f or "from_if_then_else" in f:
+                purpose = "inp-label"
+            elif fn.name in ("to_dict",):
+                purpose = "dict key"
+            else:
+                purpose = "other"
+            out.add((f, purpose))
+    return sorted(out)
+
+
 # =================================================================================================== Lean output
 
 
@@ -1859,6 +2266,39 @@ def gen_lean(tabs):
     out += _lean_list("inpWriterReads",
                       "storage fields of network objects that the INP writer (wntr/epanet/io.py InpFile.write and every _write_* it calls; "
                       "EpanetSimulator = write INP + run EPANET) READS", tabs["inpWriterReads"])
+    bf = tabs["backtrack"]
+
+    def strs(name, doc, items):
+        return ["/-- %s -/" % doc, "def %s : List String := [%s]" % (name, ", ".join(_ls(x) for x in items))]
+
+    out += ["/-- per ControlCondition class with its own evaluate(): how evaluate() treats self._backtrack -/",
+            "inductive BtKind | assignsAllPaths | neverAssigns | assignsSomePaths | composite", "  deriving DecidableEq, Repr",
+            "def backtrackKinds : List (String × BtKind) := ["]
+    out += ["  (%s, .%s)%s" % (_ls(c), k, "," if i < len(bf["kinds"]) - 1 else "") for i, (c, k) in enumerate(bf["kinds"])]
+    out.append("]")
+    out += strs("backtrackComposite", "classes whose `backtrack` property is overridden and reads the children's backtrack", bf["composite"])
+    out.append("-- presolve checker registers _ControlType %s (sim/core.py categorize_control); Control.__init__ gives those types to isinstance(condition, %s)"
+               % (bf["preTypes"], bf["preNamed"]))
+    out += strs("presolveConditionClasses",
+                "condition classes for which Control.__init__ (and any other assignment of _control_type in controls.py / sim/core.py) can produce a "
+                "control that is registered with the PRESOLVE checker (subclasses included; ValueCondition(tank, 'head'|'level'|'pressure') is a "
+                "TankLevelCondition by ValueCondition.__new__)", bf["presolve"])
+    out += strs("feasibilityConditionClasses", "class of the condition every `_control_type = _ControlType.feasibility` control in sim/core.py is built with",
+                bf["feasTop"])
+    out += strs("feasibilityLeafClasses", "leaf condition classes below those (children of the composite)", bf["feasLeaf"])
+    for k, v in sorted(bf["consumerCheckers"].items()):
+        out.append("-- backtrackConsumers: %s takes its list from %s()" % (k.replace("|", " / "), v))
+    out += ["/-- every place where the second component of a ControlChecker.check() result (the backtrack) is USED (not merely unpacked; "
+            "logger calls excluded): function name + how -/",
+            "def backtrackConsumers : List (String × String) := [%s]" % ", ".join("(%s, %s)" % (_ls(a), _ls(b)) for a, b in bf["consumers"]),
+            "/-- the readers of `<cond>.backtrack` / `_backtrack` outside the `backtrack` property definitions themselves: (function, True iff the "
+            "read is immediately preceded in the same block by `<same object>.evaluate()`) -/",
+            "def backtrackReaders : List (String × Bool) := [%s]" % ", ".join("(%s, %s)" % (_ls(a), "true" if b else "false") for a, b in bf["readers"])]
+    out.append("-- inpfileUnitsAlwaysPassed: " + tabs["inpfileUnitsEvidence"].replace("\n", " ")[:900])
+    out += ["/-- EpanetSimulator always hands InpFile.write an explicit, non-None `units`, so the cached wn._inpfile's flow_units are overwritten before use -/",
+            "def inpfileUnitsAlwaysPassed : Bool := %s" % ("true" if tabs["inpfileUnitsAlwaysPassed"] else "false"),
+            "/-- loads of `.name` / `._name` on rule / control objects in the run-time closures: (function, purpose) -/",
+            "def ruleNameReaders : List (String × String) := [%s]" % ", ".join("(%s, %s)" % (_ls(a), _ls(b)) for a, b in tabs["ruleNameReaders"])]
     out.append("end Wntr.Frame.Gen")
     return "\n".join(out) + "\n"
 
@@ -1877,6 +2317,9 @@ def build_tables():
     nrbw, nrbw_ev, decisions, vocab = not_read_before_write(wntr, inst, R, written, list(attr_names) + list(mapping.values()) + list(internal))
     not_reset = [x for x in sorted(written) if x not in set(RS.slots)]
     IR = inp_writer_reads(wntr, inst, R)
+    BF = backtrack_facts(wntr, inst, R)
+    iu, iu_ev = inpfile_units_fact()
+    rnr = rule_name_readers(wntr, inst, R)
     nrbw_ev = (["notReadBeforeWrite: computed attribute names (getattr(obj, <computed>) in conditions / change tracker) are taken from %s" % vocab]
                + nrbw_ev
                + ["notReadBeforeWrite: OUT %s.%s -- %s" % (x[0], x[1], decisions[x][1]) for x in not_reset if decisions.get(x, ("in",))[0] == "out"])
@@ -1886,6 +2329,7 @@ def build_tables():
         "notReadBeforeWrite": nrbw, "nrbwEvidence": nrbw_ev, "writtenByEpanet": sorted(E.slots),
         "nrbwDecisions": {"%s.%s" % k: list(v) for k, v in decisions.items()},
         "inpWriterReads": sorted(IR),
+        "backtrack": BF, "inpfileUnitsAlwaysPassed": iu, "inpfileUnitsEvidence": iu_ev, "ruleNameReaders": rnr,
         "notes": ["ControlAction attribute -> private attribute: %s; attribute names in use: %s; internal attributes: %s"
                   % (json.dumps(mapping, sort_keys=True), attr_names, internal)] + notes
                  + ["assignments to `self.<x>` of simulator-internal objects not listed: %d" % S.nself],
@@ -2219,6 +2663,12 @@ def scenario_specs(rng):
             ctr += [{"kind": "time", "time": hyd * 1, "action": {"link": "P9", "attr": "status", "value": 0}},
                     {"kind": "time", "time": hyd * rng.choice([3, 4]), "action": {"link": "P9", "attr": "status", "value": 1}}]
         out.append(("isolated-junction-" + mode, {"net": net, "controls": ctr, "same_sim": True}))
+    # a control action on an attribute the API accepts for every node class: leak_status on a RESERVOIR (reset_initial_values resets it
+    # for junctions and tanks only); off the hydraulic grid and report step ALL so that "did the action change anything" is visible
+    net = _small_net(pump="POWER", valve=None, steps=3)
+    net["options"]["report_timestep"] = "ALL"
+    out.append(("reservoir-leak-status-action", {"net": net, "controls": [{"kind": "time", "time": hyd // 2,
+                                                                          "action": {"node": "R0", "attr": "leak_status", "value": True}}]}))
     # daily repeating time controls in a run longer than one day (the second occurrence is threshold + 24 h)
     net = _small_net(pump="POWER", valve=None, steps=27)
     ctr = [{"kind": "time", "time": hyd * 1, "repeat": True, "action": {"link": "P5", "attr": "status", "value": 0}},
@@ -2270,7 +2720,7 @@ def build_model(wntr, spec, fresh=True):
     LS = wntr.network.LinkStatus
 
     def mk_action(a):
-        obj = wn.get_link(a["link"])
+        obj = wn.get_node(a["node"]) if "node" in a else wn.get_link(a["link"])
         v = a["value"]
         if a["attr"] == "status":
             v = LS(int(v))
@@ -3358,6 +3808,9 @@ class C11(Check):
         ctx.cov["overlap_writtenByEpanet_toDictReads"] = ["%s.%s" % x for x in overlap(tabs["writtenByEpanet"], tabs["toDictReads"])]
         ctx.cov["tables"]["inpWriterReads"] = len(tabs["inpWriterReads"])
         ctx.cov["overlap_written_inpWriterReads"] = ["%s.%s" % x for x in overlap(w, tabs["inpWriterReads"])]
+        ctx.cov["backtrack_facts"] = {k: v for k, v in tabs["backtrack"].items()}
+        ctx.cov["inpfileUnitsAlwaysPassed"] = tabs["inpfileUnitsAlwaysPassed"]
+        ctx.cov["ruleNameReaders"] = tabs["ruleNameReaders"]
         ctx.cov["not_reset_decisions"] = {k: v for k, v in tabs["nrbwDecisions"].items()
                                           if tuple(k.split(".", 1)) in set(missing(w, tabs["resetAssigns"]))}
         vlib.write_if_changed(os.path.join(vlib.GEN, "FrameC11.lean"), gen_lean(tabs))
@@ -3372,6 +3825,23 @@ class C11(Check):
             where = {("%s.%s" % s): tabs["where"]["written"].get("%s.%s" % s, [])[:3] for s in ov}
             broken.append(Broken("proof", "Gen.written ∩ Gen.toDictReads grew",
                                  "slots a run can assign that to_dict reads: %s" % json.dumps(where, sort_keys=True)))
+        bf = tabs["backtrack"]
+        kd = dict(bf["kinds"])
+        ok_kinds = ("assignsAllPaths", "neverAssigns")
+        bad1 = [c for c in bf["presolve"] if kd.get(c) not in ok_kinds]
+        bad1 += [c for c in bf["feasTop"] if not (kd.get(c) in ok_kinds or (kd.get(c) == "composite" and all(kd.get(l) == "neverAssigns" for l in bf["feasLeaf"])))]
+        if bad1:
+            broken.append(Broken("proof", "backtrack: a presolve / feasibility condition class does not assign _backtrack on every path of evaluate()",
+                                 "classes %s (kinds %s): the backtrack a presolve control reports may be left over from an earlier evaluation / run"
+                                 % (bad1, {c: kd.get(c) for c in bad1})))
+        bad2 = [r for r in bf["readers"] if not r[1]]
+        if bad2:
+            broken.append(Broken("proof", "backtrack: read without a preceding evaluate() on the same object", "readers %s" % bad2))
+        exp = [v for v in bf["consumerCheckers"].values()]
+        if len(bf["consumers"]) != 2 or sorted(exp) != ["self._feasibility_controls.check", "self._presolve_controls.check"] \
+                or not any(h.startswith("assert ") for _, h in bf["consumers"]):
+            broken.append(Broken("proof", "backtrack: the consumers of ControlChecker.check()[1] changed",
+                                 "expected the presolve loop and the feasibility assert only, found %s (from %s)" % (bf["consumers"], bf["consumerCheckers"])))
         ir = [x for x in overlap(w, tabs["inpWriterReads"]) if x not in KNOWN_INP_READS_WRITTEN]
         if ir:
             where = {("%s.%s" % x): tabs["where"]["inpReads"].get("%s.%s" % x, [])[:3] for x in ir}
